@@ -18,6 +18,7 @@ struct Family {
     void (*variants)(const Plan &base, const struct Result &ref, std::vector<Plan> &out, size_t cap);
 };
 void register_family(const Family &f);
+Plan threads_warmup_plan();   // fam_threads.cc
 const Family *find_family(const std::string &name);
 
 struct Result {
